@@ -49,9 +49,7 @@ def _design(ctx, name):
     return name, r
 
 
-def replay_shapes(ctx, drv, cfg, prefix, only_search=False, only_fetch=False):
-    """Emit shapes at the real constants (mode `real`) and replay them on real fractions in four forms.
-    Also used by C02 (search answers over posting lists that span several LID / ID / token blocks)."""
+def emit_shapes(ctx, cfg, prefix):
     cf = os.path.join(ctx.scratch, "shapes-%s.jsonl" % prefix)
     r = vlib.run_tlc(ctx, "IndexLayout.tla", cfg, case_file=cf, env={"C03_SEED": ctx.seed}, timeout=3300)
     if r.violated:
@@ -59,6 +57,13 @@ def replay_shapes(ctx, drv, cfg, prefix, only_search=False, only_fetch=False):
     vlib.require_tlc_ok(r, "IndexLayout real emission")
     if r.ncases == 0:
         raise vlib.Infra("no shapes emitted")
+    return cf
+
+
+def replay_shapes(ctx, drv, cfg, prefix, only_search=False, only_fetch=False):
+    """Emit shapes at the real constants (mode `real`) and replay them on real fractions in four forms.
+    Also used by C02 (search answers over posting lists that span several LID / ID / token blocks)."""
+    cf = emit_shapes(ctx, cfg, prefix)
     mism, summ, _ = vlib.run_cases(ctx, drv, ["-workers", str(max(4, vlib.NCPU))], cf, label="shapes", chunk=200, timeout=3400)
     for m in mism:
         what = str(m.get("what", ""))
